@@ -50,8 +50,9 @@ impl ReferenceIdRequest {
         writer.write_all(&self.offset.to_be_bytes())?;
         writer.write_all(&[0; 2])?;
 
-        let words = payload_len / 4;
-        assert_eq!(payload_len % 4, 0);
+        // NTPv5 field lengths need not be a multiple of four (and `decode` accepts such
+        // requests); the value is then zero padded up to the next word boundary.
+        let words = payload_len.div_ceil(4);
 
         for _ in 1..words {
             writer.write_all(&[0; 4])?;
